@@ -6,6 +6,7 @@ import Gtree.Model.Api
 import Gtree.Lemmas.MkdirExact
 import Gtree.Model.MkOps
 import Gtree.Lemmas.MkInterleave
+import Gtree.Lemmas.TreeFacts
 /-
   C06 — mkdir over the finite-map file system model. Proved:
    * if any root "exists" (Stat gives anything but does-not-exist) the call fails with the path-exists
@@ -274,4 +275,18 @@ theorem C06_mkdir_path_is_the_model (dg : SrcH.defaultGrowerSimple) (dm : SrcH.d
           some ((mkdirRoots fs dm.targetDir dm.fileConsiderer.extensions (ts.map (growRoot (SrcH.fmtOf dg)))).1,
                 SrcH.mkErrSrc (mkdirRoots fs dm.targetDir dm.fileConsiderer.extensions (ts.map (growRoot (SrcH.fmtOf dg)))).2)) :=
   SrcH.grow_then_mkdir dg dm ts h fs rs fuel hv hr hnd hf
+end Gtree
+
+namespace Gtree
+
+/-- **C06 (facts: composition).**  Both Mkdir operations of the simple tree enable validation, grow, and then either
+    print (dry run) or call the mkdirer — the composition `mkdir_path_is_the_model` is stated for — and the mkdirer is
+    the `defaultMkdirerSimple` built from the configured target directory and file extensions. -/
+theorem C06_facts_mkdir_grows_then_creates :
+    lookupL "mkdir" Facts.treeSimpleCalls = ["grower.enableValidation", "grower.grow", "spreader.spread", "mkdirer.mkdir"] ∧
+    lookupL "mkdirProgrammably" Facts.treeSimpleCalls = ["grower.enableValidation", "grower.grow", "spreader.spread", "mkdirer.mkdir"] ∧
+    lookupL "mkdirer" Facts.treeSimpleFields = ["mkdirerFactory", "cfg.targetDir", "cfg.fileExtensions"] ∧
+    lookupL "mkdirerFactory" Facts.factoryCtors = ["newMkdirerSimple"] ∧
+    lookupL "newMkdirerSimple" Facts.ctorReturns = ["defaultMkdirerSimple"] := by decide
+
 end Gtree
